@@ -619,22 +619,6 @@ theorem C13_rx_id_never_reused (ops more : List Op) :
               exact h2 e (List.mem_filter.mp he).1
   exact key more s (Nat.le_refl _) (fun e he => Or.inl he)
 
-private theorem pairwise_unique : ∀ (l : List (Nat × QItem)), l.Pairwise (fun a b => a.1 < b.1) →
-    ∀ x ∈ l, ∀ y ∈ l, x.1 = y.1 → x = y := by
-  intro l
-  induction l with
-  | nil => intro _ x hx; cases hx
-  | cons a l ih =>
-    intro hp x hx y hy hxy
-    rw [List.pairwise_cons] at hp
-    rcases List.mem_cons.mp hx with hxa | hxl
-    · rcases List.mem_cons.mp hy with hya | hyl
-      · rw [hxa, hya]
-      · have := hp.1 y hyl; rw [hxa] at hxy; omega
-    · rcases List.mem_cons.mp hy with hya | hyl
-      · have := hp.1 x hxl; rw [hya] at hxy; omega
-      · exact ih hp.2 x hxl y hyl hxy
-
 /-- Popping a queued id returns exactly the data announced under that id, once: the entry is
     gone afterwards (a second pop is a `KeyError`), every other entry stays, and the queue lists
     exactly the other ids. -/
@@ -643,33 +627,8 @@ theorem C13_pop_exact (ops : List Op) (bid : Nat) (q : QItem)
     ∃ s', popData (ops.foldl opStep Rx.init) bid = some (q.data, s') ∧
       popData s' bid = none ∧
       queueIds s' = (queueIds (ops.foldl opStep Rx.init)).filter (· != bid) ∧
-      ∀ e ∈ (ops.foldl opStep Rx.init).queue, e.1 ≠ bid → e ∈ s'.queue := by
-  obtain ⟨_, h2⟩ := foldl_idsOK ops Rx.init idsOK_init
-  generalize ops.foldl opStep Rx.init = s at hm h2
-  have hfind : ∃ e, s.queue.find? (fun q => q.1 == bid) = some e := by
-    cases hf : s.queue.find? (fun q => q.1 == bid) with
-    | some e => exact ⟨e, rfl⟩
-    | none =>
-      have := List.find?_eq_none.mp hf (bid, q) hm
-      simp at this
-  obtain ⟨e, he⟩ := hfind
-  have hemem := List.mem_of_find?_eq_some he
-  have heid : e.1 = bid := by simpa using List.find?_some he
-  have : e = (bid, q) := pairwise_unique s.queue h2 e hemem (bid, q) hm heid
-  subst this
-  refine ⟨{ s with queue := s.queue.filter (fun q => q.1 != bid) }, ?_, ?_, ?_, ?_⟩
-  · simp only [popData, he]
-  · simp only [popData]
-    have : (s.queue.filter (fun q => q.1 != bid)).find? (fun q => q.1 == bid) = none := by
-      rw [List.find?_eq_none]
-      intro x hx
-      have := (List.mem_filter.mp hx).2
-      simp at this ⊢; exact this
-    rw [this]
-  · simp only [queueIds, List.filter_map]
-    congr 1
-  · intro x hx hne
-    exact List.mem_filter.mpr ⟨hx, by simpa using hne⟩
+      ∀ e ∈ (ops.foldl opStep Rx.init).queue, e.1 ≠ bid → e ∈ s'.queue :=
+  popData_exact _ (foldl_idsOK ops Rx.init idsOK_init) bid q hm
 
 /-- two bundles in one datagram and a third one later, from another peer: ids 0, 1, 2; popping 1
     gives the second bundle and leaves 0 and 2 -/
